@@ -6,7 +6,7 @@ cd /repo && git status --short | grep -q . && { echo "/repo not clean"; exit 2; 
 KEEP=$(mktemp -d /tmp/evidence.keep.XXXXXX); cp -a /verif/evidence/. "$KEEP"/
 git apply "$P" || { echo "patch does not apply"; exit 2; }
 for id in "$@"; do
-  cd /verif && timeout 1500 ./check $id quick 2>&1 | grep -a -E "^C[0-9]+ quick|^VIOLATION|MACHINERY" | tail -3
+  cd /verif && timeout ${SEED_CAP:-1500} ./check $id quick 2>&1 | grep -a -E "^C[0-9]+ quick|^VIOLATION|MACHINERY" | tail -3
 done
 cd /repo && git checkout -- . && git status --short
 rm -rf /verif/evidence; mkdir -p /verif/evidence; cp -a "$KEEP"/. /verif/evidence/; rm -rf "$KEEP"
